@@ -6,9 +6,6 @@ containment relation an accepted document has no violated rule (outside the excl
 import KinModel.Lemmas.C04Local6
 namespace KinModel.DocValidate
 
-/-- no containment edge of the property is one of the structurally guarded `examples` edges -/
-theorem specEdges_unguarded : specEdges.all (fun e => e.2 != "examples") = true := by decide
-
 theorem validate_iff' (T : Table) (o : Opts) (d : Doc) :
     validate T o d = true ↔ ∀ n, Reach (active T o) d n → localOKV T o n = true :=
   descend_iff _ _ d
@@ -30,7 +27,10 @@ theorem mem_kidsAt {d : Doc} {pos : String} {c : Doc} (h : c ∈ d.kidsAt pos) :
 theorem mem_exampleEntries {d : Doc} {a : Attrs} (h : a ∈ exampleEntries d) :
     ∃ r e, ("examples", r) ∈ d.kids ∧ r.kind = .exampleRef ∧ ("value", e) ∈ r.kids ∧ e.kind = .example ∧ e.attrs = a := by
   unfold exampleEntries at h
-  simp only [List.mem_filterMap] at h
+  cases hf : d.attrs.flag "hasExamples" with
+  | false => simp [hf] at h
+  | true =>
+  simp only [hf, Bool.not_true, Bool.false_eq_true, if_false, List.mem_filterMap] at h
   obtain ⟨r, hr, hx⟩ := h
   by_cases hk : r.kind = .exampleRef
   · simp only [hk, if_true] at hx
@@ -94,6 +94,9 @@ theorem examplesWFor_of_valid (T : Table) (o : Opts) (hT : TableOK T = true) (d 
       cases hk : exampleKinds.contains d.kind with
       | false => rfl
       | true =>
+       cases hx : d.attrs.flag "hasExample" with
+       | true => rfl
+       | false =>
         have : examplesWF d = true := by
           unfold examplesWF
           rw [List.all_eq_true]
@@ -103,20 +106,16 @@ theorem examplesWFor_of_valid (T : Table) (o : Opts) (hT : TableOK T = true) (d 
           cases r with | node rk ra rkids =>
           simp only [Doc.kind] at hkr hk
           subst hkr
-          simp only [Doc.attrs] at hs
+          simp only [Doc.attrs] at hs hx
           have hkm : k ∈ exampleKinds := by simpa using hk
           have hf := tableFacts T hT
           have a1 : active T o k aa "examples" = true := by
             unfold active
-            rw [(hf.ex k hkm).2.2]
-            have hg : structGuard k aa "examples" = true := by
-              simp only [exampleKinds, List.mem_cons, List.not_mem_nil, or_false] at hkm
-              rcases hkm with rfl | rfl | rfl <;> simp [structGuard, hs]
-            simp [anyHolds, guardsHold, litHolds, hd, hg]
+            rw [anyHolds_as o aa _ _ (hf.ex k hkm).2.2]
+            simp [hd, hs, hx]
           have a2 : active T o .exampleRef ra "value" = true := by
             unfold active
-            rw [anyHolds_of_nil o _ hf.exRef]
-            simp [structGuard]
+            exact anyHolds_of_nil o ra _ hf.exRef
           have hre : Reach (active T o) (.node k aa kids) e := .step hr a1 (.step he a2 .self)
           exact shape_of_localOK T o e _ hke (hv e hre)
         simp [this]
@@ -135,6 +134,9 @@ theorem examplesWFor_of_reached_rules (T : Table) (o : Opts) (hT : TableOK T = t
       cases hk : exampleKinds.contains d.kind with
       | false => rfl
       | true =>
+       cases hx : d.attrs.flag "hasExample" with
+       | true => rfl
+       | false =>
         have : examplesWF d = true := by
           unfold examplesWF
           rw [List.all_eq_true]
@@ -144,20 +146,16 @@ theorem examplesWFor_of_reached_rules (T : Table) (o : Opts) (hT : TableOK T = t
           cases r with | node rk ra rkids =>
           simp only [Doc.kind] at hkr hk
           subst hkr
-          simp only [Doc.attrs] at hs
+          simp only [Doc.attrs] at hs hx
           have hkm : k ∈ exampleKinds := by simpa using hk
           have hf := tableFacts T hT
           have a1 : active T o k aa "examples" = true := by
             unfold active
-            rw [(hf.ex k hkm).2.2]
-            have hg : structGuard k aa "examples" = true := by
-              simp only [exampleKinds, List.mem_cons, List.not_mem_nil, or_false] at hkm
-              rcases hkm with rfl | rfl | rfl <;> simp [structGuard, hs]
-            simp [anyHolds, guardsHold, litHolds, hd, hg]
+            rw [anyHolds_as o aa _ _ (hf.ex k hkm).2.2]
+            simp [hd, hs, hx]
           have a2 : active T o .exampleRef ra "value" = true := by
             unfold active
-            rw [anyHolds_of_nil o _ hf.exRef]
-            simp [structGuard]
+            exact anyHolds_of_nil o ra _ hf.exRef
           have hre : Reach (active T o) (.node k aa kids) e := .step hr a1 (.step he a2 .self)
           exact shape_of_rulesOK o e hke (hv e hre)
         simp [this]
@@ -169,13 +167,8 @@ theorem covered_active (T : Table) (o : Opts) (k : Kind) (a : Attrs) (pos : Stri
     cases hcon : (rowsFor T.edges k pos).contains [] with
     | true => rfl
     | false => exact absurd (List.mem_filter.mpr ⟨hs, by show (!(rowsFor T.edges k pos).contains []) = true; rw [hcon]; rfl⟩) hc
-  have hne : (pos != "examples") = true := by
-    have := List.all_eq_true.mp specEdges_unguarded (k, pos) hs
-    simpa using this
-  unfold active structGuard
-  rw [anyHolds_of_nil o _ hrow]
-  have : (pos = "examples") = False := by simpa using hne
-  simp [this]
+  unfold active
+  exact anyHolds_of_nil o a _ hrow
 
 theorem reach_rules (T : Table) (o : Opts) (hT : TableOK T = true) {d n : Doc} (hr : Reach specAct d n) :
     (∀ m, Reach specAct d m → exclNode T (uncovered T) o m = false) → validate T o d = true → rulesOK o n = true := by
